@@ -14,6 +14,7 @@ import Driver.Lines
 import Driver.Link
 import Driver.CodePair
 import Driver.Entity
+import Driver.NodeRender
 
 def dispatch (line : String) : String :=
   match line.trimAscii.toString.splitOn " " with
@@ -32,6 +33,7 @@ def dispatch (line : String) : String :=
   | "link" :: args => Driver.Link.handle args
   | "codepair" :: args => Driver.CodePair.handle args
   | "entity" :: args => Driver.Entity.handle args
+  | "noderender" :: args => Driver.NodeRender.handle args
   | _ => "bad-stream"
 
 partial def loop (h : IO.FS.Stream) (out : IO.FS.Stream) : IO Unit := do
